@@ -31,6 +31,12 @@ def gen_case(rng):
             params = rng.choice([None, b"null", b"[]", b'{"interface":5}', b"{}", json.dumps({"interface": name.decode("utf-8", "replace")}).encode()])
         else:
             params = rng.choice([None, b"{}", J.text_of(rng, None, 1)])
+        if rng.random() < 0.12:
+            # frames that decode but carry no (string) method: answered like a call without method, never dispatched
+            fr = rng.choice([b"{}", b"null", b'{"method":null}', b'{"parameters":{"a":1}}', b'{"more":true}', b'{"method":""}', b" { } "])
+            calls.append(C.Call(b"", None, more=(fr == b'{"more":true}')))
+            data += fr + b"\x00"
+            continue
         calls.append(C.Call(method, params, more, oneway, False))
         data += S.call_bytes(rng, method, params, more, oneway, False) + b"\x00"
     if rng.random() < 0.4:
